@@ -3,7 +3,6 @@ import MythVerif.Proofs.WsQueueTsoTac
 namespace MythVerif.WsqTso
 open MythVerif.Wsq
 
-set_option maxHeartbeats 4000000 in
 theorem t_tpl (s s' : St) (p : Pid) (e) : Inv s → s.tpc p = .tpl e → stepT s p = some s' → Inv s' := by
   intro h heq hs
   have hb := h.tbufE p (by simp [heq, mayBuf])
@@ -11,34 +10,24 @@ theorem t_tpl (s s' : St) (p : Pid) (e) : Inv s → s.tpc p = .tpl e → stepT s
   simp at hs
   split at hs
   · simp at hs; subst hs
-    cases h
-    simp only [ownerLocked, carry, resetting, ownerFlight] at *
-    tso_finish
+    tso_fastT h p []
   · simp at hs; subst hs
-    cases h
-    simp only [ownerLocked, carry, resetting, ownerFlight] at *
-    tso_finish
+    tso_fastT h p []
 
-set_option maxHeartbeats 4000000 in
 theorem t_tp1 (s s' : St) (p : Pid) (e) : Inv s → s.tpc p = .tp1 e → stepT s p = some s' → Inv s' := by
   intro h heq hs
   have hb := h.tbufE p (by simp [heq, mayBuf])
-  cases h
   simp only [stepT, heq, hb, viewBase_nil] at hs
   split at hs
   all_goals (simp at hs; subst hs)
-  all_goals simp only [ownerLocked, carry, resetting, ownerFlight] at *
-  all_goals tso_finish
+  all_goals tso_fastT h p []
 
-set_option maxHeartbeats 4000000 in
 theorem t_tp1b (s s' : St) (p : Pid) (e) : Inv s → s.tpc p = .tp1b e → stepT s p = some s' → Inv s' := by
   intro h heq hs
   have hb := h.tbufE p (by simp [heq, mayBuf])
   have hnr := thief_not_resetting s h p ((h.lockT p).2 (by simp [heq, thiefLocked]))
-  cases h
   simp only [stepT, heq, hb, viewBase_nil] at hs
   simp at hs; subst hs
-  simp only [ownerLocked, carry, resetting, ownerFlight] at *
-  tso_finish
+  tso_fastT h p []
 
 end MythVerif.WsqTso
